@@ -9,6 +9,8 @@ it observed. Four kinds of action, which are exactly the kinds of access the lib
 
   read c          plain read of document / router / registry state
   write c v       PLAIN write, no synchronisation                                (must not occur)
+  syncStore c v / syncRead c   synchronised unconditional store / read-back of a cache cell (never a data race,
+                  but NOT clean: the value read back depends on who stored last — `getTypeInfo`, finding F-C15-2)
   cacheFill c v   fill of a cache cell through sync.Map / under a mutex / sync.Once
                   (`compiledPatterns.CompareAndSwap`, `typeInfos[t] = …` under `typeInfosMutex`)
   lazyInit c v    `if X == nil { X = v }; use X` — a plain read of X, and a PLAIN write when X is nil
@@ -46,6 +48,8 @@ inductive Act
   | write (c : Cell) (v : Val)
   | cacheFill (c : Cell) (v : Val)
   | lazyInit (c : Cell) (v : Val)
+  | syncStore (c : Cell) (v : Val)   -- synchronised UNCONDITIONAL store (`typeInfos[t] = ti` under the mutex)
+  | syncRead (c : Cell)              -- synchronised read whose value the thread goes on to USE
   deriving DecidableEq, Repr
 
 abbrev State := Cell → Val
@@ -58,11 +62,14 @@ def stepState (σ : State) : Act → State
   | .write c v => fun x => if x = c then v else σ x
   | .cacheFill c v => fun x => if x = c then fillVal (σ c) v else σ x
   | .lazyInit c v => fun x => if x = c then fillVal (σ c) v else σ x
+  | .syncStore c v => fun x => if x = c then v else σ x
+  | .syncRead _ => σ
 
 /-- what the acting thread observes (its verdict is a function of the list of these) -/
 def stepObs (σ : State) : Act → Option Val
   | .read c => some (σ c)
   | .lazyInit c v => some (if σ c = 0 then v else σ c)
+  | .syncRead c => some (σ c)
   | _ => none
 
 inductive Access | plainRead | plainWrite | sync
@@ -79,6 +86,8 @@ def stepAcc (σ : State) : Act → Cell × Access
   | .write c _ => (c, .plainWrite)
   | .cacheFill c _ => (c, .sync)
   | .lazyInit c _ => (c, if σ c = 0 then .plainWrite else .plainRead)
+  | .syncStore c _ => (c, .sync)
+  | .syncRead c => (c, .sync)
 
 abbrev Trace := List (Nat × Act)
 
@@ -139,6 +148,8 @@ def cleanAct (k : Cfg) : Act → Bool
   | .write _ _ => false
   | .cacheFill c _ => k.cache.contains c
   | .lazyInit c _ => k.lazy.contains c && !k.cache.contains c
+  | .syncStore _ _ => false   -- race-free, but last-writer-wins: a cache written this way is not transparent
+  | .syncRead _ => false      -- … to a thread that uses what it reads back
 
 def CleanTrace (k : Cfg) (tr : Trace) : Prop := ∀ x ∈ tr, cleanAct k x.2 = true
 
@@ -164,6 +175,8 @@ theorem lazy_step (k : Cfg) (σ : State) (a : Act) (hc : cleanAct k a = true) (h
   cases a with
   | read c' => simpa [stepState] using h0
   | write c' v => simp [cleanAct] at hc
+  | syncStore c' v => simp [cleanAct] at hc
+  | syncRead c' => simp [cleanAct] at hc
   | cacheFill c' v =>
     simp only [stepState]
     by_cases hx : c = c'
@@ -180,6 +193,8 @@ theorem acc_not_write (k : Cfg) (σ : State) (a : Act) (hc : cleanAct k a = true
   cases a with
   | read c => simp [stepAcc]
   | write c v => simp [cleanAct] at hc
+  | syncStore c v => simp [cleanAct] at hc
+  | syncRead c => simp [cleanAct] at hc
   | cacheFill c v => simp [stepAcc]
   | lazyInit c v =>
     simp only [cleanAct, Bool.and_eq_true, List.contains_iff_mem] at hc
@@ -204,6 +219,8 @@ theorem agree_step (k : Cfg) (σ τ : State) (a : Act) (hag : AgreeOff k σ τ) 
     have hcn : c ∉ k.cache := by simpa [cleanAct] using hc
     exact ⟨by simpa [stepState] using hag, by simp [stepObs, hag c hcn]⟩
   | write c v => simp [cleanAct] at hc
+  | syncStore c v => simp [cleanAct] at hc
+  | syncRead c => simp [cleanAct] at hc
   | cacheFill c v =>
     have hcm : c ∈ k.cache := by simpa [cleanAct] using hc
     refine ⟨?_, by simp [stepObs]⟩
@@ -226,6 +243,8 @@ theorem agree_other (k : Cfg) (σ τ : State) (a : Act) (hag : AgreeOff k σ τ)
   cases a with
   | read c => simpa [stepState] using hag
   | write c v => simp [cleanAct] at hc
+  | syncStore c v => simp [cleanAct] at hc
+  | syncRead c => simp [cleanAct] at hc
   | cacheFill c v =>
     have hcm : c ∈ k.cache := by simpa [cleanAct] using hc
     intro x hx
